@@ -15,6 +15,7 @@ import (
 	"golang.zx2c4.com/wireguard/replay"
 
 	"go.brendoncarroll.net/p2p/f/x509"
+	"go.brendoncarroll.net/p2p/verifhook"
 )
 
 type Session struct {
@@ -140,6 +141,7 @@ func (s *Session) Send(out, ptext []byte, now time.Time) ([]byte, error) {
 		return nil, errors.New("session has hit message limit")
 	}
 	nonce := atomic.AddUint64(&s.nonce, 1) - 1
+	verifhook.Emit(verifhook.KindCiphertext, verifSessionID(s), 0, nonce)
 	msg := newMessage(uint32(nonce))
 	out = append(out, msg...)
 	out = s.cipherOut.Encrypt(out, nonce, msg, ptext)
@@ -247,6 +249,7 @@ func (s *Session) readHandshake(msg Message) error {
 			return err
 		}
 		s.msgCache[2] = res.InitDone
+		verifhook.Emit(verifhook.KindCiphertext, verifSessionID(s), 1, nonceInitDone)
 		s.cipherOut, s.cipherIn = res.CipherOut, res.CipherIn
 		s.remoteKey = res.RemoteKey
 		s.hsIndex = 2 // the initiator doesn't know if the server got the initDone yet.
@@ -256,6 +259,7 @@ func (s *Session) readHandshake(msg Message) error {
 			return err
 		}
 		s.msgCache[3] = res.RespDone
+		verifhook.Emit(verifhook.KindCiphertext, verifSessionID(s), 1, nonceRespDone)
 		s.nonce = noncePostHandshake
 		s.hsIndex = 3
 	case s.isInit && s.hsIndex == 2 && nonce == nonceRespDone:
